@@ -377,7 +377,7 @@ theorem leaf_not_deleted {F : Forest H} (hn : F.numLeaves < 2 ^ 64) {Rl : List H
 
 /-- **`removeSingle d` on a full forest**: `d` is a node of `F` all of whose leaves are pending
 (no longer in the cache); afterwards the state tracks `F` without the leaves below `d` -/
-theorem fremoveSingle_step (cr : CR H) {m : MapPollard H} {F : Forest H} {P : H → Prop} (r : FRInv m F P)
+theorem fremoveSingle_step (nz : NZ H) {m : MapPollard H} {F : Forest H} {P : H → Prop} (r : FRInv m F P)
     {d : Pos} {h : H} {b : Bool} (hd : (d, h, b) ∈ F.nodes)
     (hpend : ∀ t x, (t, x, true) ∈ F.nodes → Anc d t → P x) :
     ∃ m', MapPollard.removeSingle (encP m.totalRows.toNat d) m = (m', .ok ()) ∧
@@ -385,11 +385,11 @@ theorem fremoveSingle_step (cr : CR H) {m : MapPollard H} {F : Forest H} {P : H 
       FRInv m' (F.delLeaves (leavesUnder F d)) (fun x => P x ∧ x ∉ leavesUnder F d) := by
   obtain ⟨A, C, rep, fa⟩ := r.abs
   have hn64 : F.numLeaves < 2 ^ 64 := by have := r.n_lt; omega
-  have L := laws_forest cr F hn64 r.hyg
+  have L := laws_forest nz F hn64 r.hyg
   have hy' := hyg_delLeaves r.hyg (leavesUnder F d)
   have hnl' : (F.delLeaves (leavesUnder F d)).numLeaves = F.numLeaves := numLeaves_delLeaves F _
   have L'' : Laws (F.delLeaves (leavesUnder F d)).nodes (FRoot F) := by
-    have := laws_forest cr (F.delLeaves (leavesUnder F d)) (by rw [hnl']; exact hn64) hy'
+    have := laws_forest nz (F.delLeaves (leavesUnder F d)) (by rw [hnl']; exact hn64) hy'
     rwa [froot_del] at this
   have hdv : Valid m.totalRows.toNat d := MapFull.node_valid r.rows_le hd
   have hrowsF : forestRows F.numLeaves ≤ m.totalRows.toNat := r.rows_le
@@ -413,7 +413,7 @@ theorem fremoveSingle_step (cr : CR H) {m : MapPollard H} {F : Forest H} {P : H 
       exact ⟨hp, leaf_not_deleted hn64 hm⟩
   by_cases hroot : isRootPos F.numLeaves d = true
   · obtain ⟨m', hrm, rep', hnl, hfl⟩ := removeSingle_root_rep rep r.n_eq r.n_lt hrowsF r.full hdv hroot
-    have hN'' := del_root cr F hn64 r.hyg hroot (leavesUnder F d) (fun x => mem_leavesUnder)
+    have hN'' := del_root nz F hn64 r.hyg hroot (leavesUnder F d) (fun x => mem_leavesUnder)
     have fa' := frootCase fa hpend hN''
     exact ⟨m', hrm, pack m' _ _ rep' hnl hfl fa'⟩
   · have hnr : isRootPos F.numLeaves d = false := by
@@ -422,7 +422,7 @@ theorem fremoveSingle_step (cr : CR H) {m : MapPollard H} {F : Forest H} {P : H 
       | true => exact absurd hx hroot
     have hnrR : ¬ FRoot F d := by unfold FRoot; rw [hnr]; simp
     obtain ⟨ρ, hρ, hρd⟩ := L.under_root d h b hd
-    obtain ⟨D1, D2, D3, D4⟩ := del_nonroot cr F hn64 r.hyg hd hnr (leavesUnder F d) (fun x => mem_leavesUnder)
+    obtain ⟨D1, D2, D3, D4⟩ := del_nonroot nz F hn64 r.hyg hd hnr (leavesUnder F d) (fun x => mem_leavesUnder)
     have hRT : ∀ z, FRoot F z → z.1 ≤ m.totalRows.toNat := by
       intro z hz
       obtain ⟨hz', bz, hzm⟩ := L.root_node z hz
@@ -471,7 +471,7 @@ theorem fremoveSingle_step (cr : CR H) {m : MapPollard H} {F : Forest H} {P : H 
 
 /-! ### the loop over the detwinned targets -/
 
-theorem fremoveAll_spec (cr : CR H) : ∀ (ds : List Pos) {m : MapPollard H} {F : Forest H} {P : H → Prop},
+theorem fremoveAll_spec (nz : NZ H) : ∀ (ds : List Pos) {m : MapPollard H} {F : Forest H} {P : H → Prop},
     FRInv m F P → (∀ d ∈ ds, ∃ h b, (d, h, b) ∈ F.nodes) →
     (∀ d ∈ ds, ∀ t x, (t, x, true) ∈ F.nodes → Anc d t → P x) →
     ds.Pairwise (fun a b => ¬ Anc (parent a) b ∧ ¬ Anc b (parent a)) →
@@ -484,10 +484,10 @@ theorem fremoveAll_spec (cr : CR H) : ∀ (ds : List Pos) {m : MapPollard H} {F 
     · intro x; simp
   | d :: ds, m, F, P, r, hnode, hpend, hsep => by
     obtain ⟨h, b, hd⟩ := hnode d List.mem_cons_self
-    obtain ⟨m1, hrm, hT1, r1⟩ := fremoveSingle_step cr r hd (hpend d List.mem_cons_self)
+    obtain ⟨m1, hrm, hT1, r1⟩ := fremoveSingle_step nz r hd (hpend d List.mem_cons_self)
     rw [List.pairwise_cons] at hsep
     have hn64 : F.numLeaves < 2 ^ 64 := by have := r.n_lt; omega
-    have L := laws_forest cr F hn64 r.hyg
+    have L := laws_forest nz F hn64 r.hyg
     have pers : ∀ d' ∈ ds,
         (∀ h' b', (d', h', b') ∈ F.nodes → (d', h', b') ∈ (F.delLeaves (leavesUnder F d)).nodes) ∧
         (∀ t x, Anc d' t → ((t, x, true) ∈ (F.delLeaves (leavesUnder F d)).nodes ↔ (t, x, true) ∈ F.nodes)) := by
@@ -495,12 +495,12 @@ theorem fremoveAll_spec (cr : CR H) : ∀ (ds : List Pos) {m : MapPollard H} {F 
       have hs := hsep.1 d' hd'
       by_cases hroot : isRootPos F.numLeaves d = true
       · obtain ⟨s1, s2⟩ := sep_disj hs
-        exact persist_root cr F hn64 r.hyg hroot s1 s2
+        exact persist_root nz F hn64 r.hyg hroot s1 s2
       · have hnr : isRootPos F.numLeaves d = false := by
           cases hx : isRootPos F.numLeaves d with
           | false => rfl
           | true => exact absurd hx hroot
-        exact persist_nonroot cr F hn64 r.hyg hd hnr hs.1 hs.2
+        exact persist_nonroot nz F hn64 r.hyg hd hnr hs.1 hs.2
     have hmemLU : ∀ d' ∈ ds, ∀ x, x ∈ leavesUnder (F.delLeaves (leavesUnder F d)) d' ↔ x ∈ leavesUnder F d' := by
       intro d' hd' x
       rw [mem_leavesUnder, mem_leavesUnder]
@@ -516,7 +516,7 @@ theorem fremoveAll_spec (cr : CR H) : ∀ (ds : List Pos) {m : MapPollard H} {F 
       intro d' hd' t x ht ha
       have htF := ((pers d' hd').2 t x ha).1 ht
       exact ⟨hpend d' (List.mem_cons_of_mem _ hd') t x htF ha, leaf_not_deleted hn64 ht⟩
-    obtain ⟨m2, hrest, hT2, r2⟩ := fremoveAll_spec cr ds r1 hnode1 hpend1 hsep.2
+    obtain ⟨m2, hrest, hT2, r2⟩ := fremoveAll_spec nz ds r1 hnode1 hpend1 hsep.2
     refine ⟨m2, ?_, hT2.trans hT1, ?_⟩
     · show MapPollard.removeAll (ds.map (encP m.totalRows.toNat)) (MapPollard.removeSingle (encP m.totalRows.toNat d) m).1 = m2
       rw [hrm]
@@ -544,7 +544,7 @@ theorem fremoveAll_spec (cr : CR H) : ∀ (ds : List Pos) {m : MapPollard H} {F 
 /-! ### `remove` -/
 
 /-- in a full forest every live leaf is cached -/
-theorem FInv.hasCached_iff (cr : CR H) {m : MapPollard H} {F : Forest H} (s : FInv m F) (x : H) :
+theorem FInv.hasCached_iff (nz : NZ H) {m : MapPollard H} {F : Forest H} (s : FInv m F) (x : H) :
     m.hasCached x = true ↔ x ∈ F.liveLeaves := by
   have hn64 := s.n_lt64
   rw [hasCached_eq]
@@ -569,12 +569,12 @@ theorem canon_live {F : Forest H} {L : List H} {ts : List Pos} {ps : List H} (hc
 /-- **`remove` on a full forest preserves `FInv`**: ANY duplicate-free list `L` of live leaves
 (given with the targets of their canonical proof, in any `TotalRows ≥ TreeRows` allocation) is
 deleted from the specification forest -/
-theorem finv_remove (cr : CR H) {m : MapPollard H} {F : Forest H} (s : FInv m F) (L : List H) (ts : List Pos)
+theorem finv_remove (nz : NZ H) {m : MapPollard H} {F : Forest H} (s : FInv m F) (L : List H) (ts : List Pos)
     (ps : List H) (hnd : L.Nodup) (hc : F.canon L = some (ts, ps)) :
     ∃ m', MapPollard.remove (ts.map (encP F.rows)) L m = (m', .ok ()) ∧ FInv m' (F.delLeaves L) := by
   obtain ⟨A, C, rep, fa⟩ := s.abs
   have hn64 : F.numLeaves < 2 ^ 64 := s.n_lt64
-  have Lw := laws_forest cr F hn64 s.hyg
+  have Lw := laws_forest nz F hn64 s.hyg
   have hcached : ∀ x ∈ L, m.hasCached x = true := by
     intro x hx
     obtain ⟨t, ht⟩ := canon_live hc hx
@@ -596,11 +596,11 @@ theorem finv_remove (cr : CR H) {m : MapPollard H} {F : Forest H} (s : FInv m F)
     · intro t x hm hp
       rw [if_neg hp]; exact fa.csto t x hm (fun h => h)
   -- the detwinned targets
-  obtain ⟨ds, hDT, hdt⟩ := deTwin_spec cr F s.n_lt s.hyg hnd hc s.total_le s.rows_le
+  obtain ⟨ds, hDT, hdt⟩ := deTwin_spec nz F s.n_lt s.hyg hnd hc s.total_le s.rows_le
   have hrowsm : m.totalRows = H8 m.totalRows.toNat := rep.rows
   have htr : TreeRows m.numLeaves = H8 F.rows := by
     rw [s.n_eq]; exact SpecView.treeRows_eq s.n_lt
-  obtain ⟨m', hra, hT', r'⟩ := fremoveAll_spec cr ds r1 hDT.node
+  obtain ⟨m', hra, hT', r'⟩ := fremoveAll_spec nz ds r1 hDT.node
     (fun d hd t x ht ha => hDT.sub d hd t x ht ha) hDT.sep
   have hmem : ∀ x, x ∈ ds.flatMap (leavesUnder F) ↔ x ∈ L := by
     intro x
